@@ -124,6 +124,10 @@ pub enum Op {
     /// reverse of the trader's last successful swap: exact-in spends what that swap paid out (+delta),
     /// exact-out asks back what that swap took in (+delta)
     SwapBack { trader: u8, exact_in: bool, delta: i8, v2: bool },
+    /// exact-in swap whose budget is the gross-up of the exact curve cost from the current price to `target` at the pool's current
+    /// liquidity and fee rate, plus `delta` units: the budget's net part equals / just misses / just exceeds what the step to that
+    /// price costs.  `with_limit`: the same price is also the price limit.
+    SwapExact { trader: u8, a_to_b: bool, target: LimitSel, delta: i8, with_limit: bool, v2: bool },
     UpdateFees { pos: u16 },
     CollectFees { pos: u16, v2: bool },
     CollectProtocolFees { v2: bool },
@@ -590,6 +594,7 @@ impl Hist {
                 Op::Decrease { pos, amount, v2: false } => Some(Op::Decrease { pos, amount, v2: true }),
                 Op::Swap { trader, a_to_b, exact_in, amount, limit, v2: false } => Some(Op::Swap { trader, a_to_b, exact_in, amount, limit, v2: true }),
                 Op::SwapBack { trader, exact_in, delta, v2: false } => Some(Op::SwapBack { trader, exact_in, delta, v2: true }),
+                Op::SwapExact { trader, a_to_b, target, delta, with_limit, v2: false } => Some(Op::SwapExact { trader, a_to_b, target, delta, with_limit, v2: true }),
                 Op::CollectFees { pos, v2: false } => Some(Op::CollectFees { pos, v2: true }),
                 Op::CollectProtocolFees { v2: false } => Some(Op::CollectProtocolFees { v2: true }),
                 _ => None,
@@ -705,6 +710,26 @@ impl Hist {
                 let base = if *exact_in { lout } else { lin };
                 let amount = (base as i128 + *delta as i128).clamp(0, u64::MAX as i128) as u64;
                 let sp = SwapParams { amount, threshold: SwapParams::neutral_threshold(*exact_in), sqrt_price_limit: 0, exact_in: *exact_in, a_to_b: !la2b };
+                let ix = if *v2 { self.w.ix_swap_v2(self.pool, u, &sp) } else { self.w.ix_swap(self.pool, u, &sp) };
+                res.swap = Some(sp);
+                ix
+            }
+            Op::SwapExact { trader, a_to_b, target, delta, with_limit, v2 } => {
+                let u = self.traders[*trader as usize % self.traders.len()];
+                let st = self.w.pool_state(self.pool);
+                let p1 = self.resolve_limit(target, *a_to_b);
+                if p1 == 0 || p1 == st.sqrt_price || st.liquidity == 0 {
+                    return res;
+                }
+                let (p0, l) = (st.sqrt_price, st.liquidity);
+                let cost = if *a_to_b { crate::model::amt_a(l, p1.min(p0), p1.max(p0), true) } else { crate::model::amt_b(l, p1.min(p0), p1.max(p0), true) };
+                let rate = st.fee_rate as u32;
+                // smallest gross amount whose part net of the fee (floor) covers the cost
+                let gross = crate::model::ceil_div(&(cost * 1_000_000u32), &num_bigint::BigUint::from(1_000_000u32 - rate.min(999_999)));
+                let Some(gross) = crate::model::to_u64(&gross) else { return res };
+                let amount = (gross as i128 + *delta as i128).clamp(0, u64::MAX as i128) as u64;
+                res.user = Some(u);
+                let sp = SwapParams { amount, threshold: SwapParams::neutral_threshold(true), sqrt_price_limit: if *with_limit { p1 } else { 0 }, exact_in: true, a_to_b: *a_to_b };
                 let ix = if *v2 { self.w.ix_swap_v2(self.pool, u, &sp) } else { self.w.ix_swap(self.pool, u, &sp) };
                 res.swap = Some(sp);
                 ix
@@ -993,6 +1018,13 @@ pub fn swap_op() -> BoxedStrategy<Op> {
         .boxed()
 }
 
+pub fn swap_exact_op() -> BoxedStrategy<Op> {
+    let target = prop_oneof![4 => (0u8..2).prop_map(LimitSel::InitTick), 2 => (0u16..3).prop_map(LimitSel::UsableTick), 1 => gen::bits_u128(70).prop_map(LimitSel::Offset)];
+    (0u8..2, any::<bool>(), target, -2i8..=2, any::<bool>(), any::<bool>())
+        .prop_map(|(trader, a_to_b, target, delta, with_limit, v2)| Op::SwapExact { trader, a_to_b, target, delta, with_limit, v2 })
+        .boxed()
+}
+
 pub fn swap_back_op() -> BoxedStrategy<Op> {
     (0u8..2, any::<bool>(), -2i8..=2, any::<bool>()).prop_map(|(trader, exact_in, delta, v2)| Op::SwapBack { trader, exact_in, delta, v2 }).boxed()
 }
@@ -1035,6 +1067,7 @@ pub fn op_strategy(with_rewards: bool) -> BoxedStrategy<Op> {
         3 => (any::<u16>(), range_strategy(), liquidity_strategy()).prop_map(|(pos, range, liquidity)| Op::Reposition { pos, range, liquidity }),
         26 => swap_op(),
         6 => swap_back_op(),
+        4 => swap_exact_op(),
         5 => any::<u16>().prop_map(|pos| Op::UpdateFees { pos }),
         5 => (any::<u16>(), any::<bool>()).prop_map(|(pos, v2)| Op::CollectFees { pos, v2 }),
         3 => any::<bool>().prop_map(|v2| Op::CollectProtocolFees { v2 }),
